@@ -4,8 +4,8 @@ Import ListNotations.
 From SAV.base Require Import Tree.
 From SAV.orm Require Import WeakRef.
 
-Definition as_row (t : tree) : option (N * Z) :=
-  match t with L [k; I v] => match as_N k with Some k' => Some (k', v) | None => None end | _ => None end.
+Definition as_row (t : tree) : option (N * row) :=
+  match t with L [k; I v; I w] => match as_N k with Some k' => Some (k', (v, w)) | None => None end | _ => None end.
 
 Definition as_op (ns : nat) (t : tree) : option op :=
   match t with
@@ -16,6 +16,8 @@ Definition as_op (ns : nat) (t : tree) : option op :=
           else if (c =? 0)%Z then match as_N b with Some k => Some (Load i k) | None => None end
           else if (c =? 10)%Z then
             match as_nat b with Some j => if j <? ns then Some (Link i j) else None | None => None end
+          else if (c =? 13)%Z then
+            match as_bool b with Some w => Some (ExpireAttr i w) | None => None end
           else None
       | None => None
       end
@@ -25,7 +27,8 @@ Definition as_op (ns : nat) (t : tree) : option op :=
           if negb (i <? ns) then None
           else if (c =? 1)%Z then Some (New i) else if (c =? 2)%Z then Some (SetV i)
           else if (c =? 3)%Z then Some (Drop i) else if (c =? 7)%Z then Some (Expire i)
-          else if (c =? 9)%Z then Some (Delete i) else None
+          else if (c =? 9)%Z then Some (Delete i) else if (c =? 11)%Z then Some (SetW i)
+          else if (c =? 12)%Z then Some (Mut i) else None
       | None => None
       end
   | L [I c] =>
@@ -34,9 +37,9 @@ Definition as_op (ns : nat) (t : tree) : option op :=
   | _ => None
   end.
 
-Fixpoint insert_row (p : N * Z) (l : list (N * Z)) : list (N * Z) :=
+Fixpoint insert_row (p : N * row) (l : list (N * row)) : list (N * row) :=
   match l with [] => [p] | q :: r => if N.leb (fst p) (fst q) then p :: l else q :: insert_row p r end.
-Definition sort_rows (l : list (N * Z)) : list (N * Z) := fold_right insert_row [] l.
+Definition sort_rows (l : list (N * row)) : list (N * row) := fold_right insert_row [] l.
 Fixpoint insert_N (x : N) (l : list N) : list N :=
   match l with [] => [x] | y :: r => if N.leb x y then x :: l else y :: insert_N x r end.
 
@@ -45,7 +48,7 @@ Definition count (f : obj -> bool) (s : st) : nat := length (filter (fun o => f 
 (* per operation: [rc; bit mask of the live objects (bit i = object i, creation order); slot contents (-1 = None); sorted primary
    keys of identity_map.keys(); len(session.new); len(session.dirty); len(session.deleted);
    rows of t if they differ from the rows before the operation, else 0; failed] *)
-Definition db_tree (s : st) : tree := L (map (fun p => L [of_N (fst p); I (snd p)]) (sort_rows (db s))).
+Definition db_tree (s : st) : tree := L (map (fun p : N * row => L [of_N (fst p); I (fst (snd p)); I (snd (snd p))]) (sort_rows (db s))).
 Definition observe (rc : Z) (prev : tree) (s : st) : tree :=
   L [ I rc;
       of_N (fold_right (fun o m => N.add (if alive (heap s o) then 1 else 0) (N.double m)) 0%N (oids s));
